@@ -77,6 +77,8 @@ pub struct Case {
     /// `unsafe_mode` the mutator objects are created with (normally = `unsafe_m`; the public API
     /// lets them differ)
     pub mu: bool,
+    /// explicit ordered mutator list (indices into `MUTS`); overrides `mask` when present
+    pub muts: Option<Vec<usize>>,
 }
 
 pub const MUTS: [MutatorKind; 7] = [
@@ -91,12 +93,20 @@ pub const MUTS: [MutatorKind; 7] = [
 
 impl Case {
     pub fn line(&self) -> String {
+        let muts = match &self.muts {
+            None => String::new(),
+            Some(v) if v.is_empty() => " muts=-".to_string(),
+            Some(v) => format!(
+                " muts={}",
+                v.iter().map(|i| crate::mutsrc::MUT_NAMES[*i]).collect::<Vec<_>>().join(",")
+            ),
+        };
         let mode = match &self.mode {
             Mode::Rand(s) => format!("rand:{}", s),
             Mode::Arb(b) => format!("arb:{}", if b.is_empty() { "-".to_string() } else { hex(b) }),
         };
         format!(
-            "id={} P={} unsafe={} mu={} ext={} buf={} min={} max={} mask={} rate={:016x} warm={} mode={}",
+            "id={} P={} unsafe={} mu={} ext={} buf={} min={} max={} mask={}{} rate={:016x} warm={} mode={}",
             self.id,
             self.proto,
             self.unsafe_m as u8,
@@ -106,6 +116,7 @@ impl Case {
             self.min,
             self.max,
             self.mask,
+            muts,
             self.rate_bits,
             self.warm,
             mode
@@ -126,6 +137,7 @@ impl Case {
             mode: Mode::Rand(0),
             warm: 0,
             mu: false,
+            muts: None,
         };
         let mut mu_given = false;
         for tok in line.split_whitespace() {
@@ -145,6 +157,15 @@ impl Case {
                 "mask" => c.mask = v.parse().ok()?,
                 "rate" => c.rate_bits = u64::from_str_radix(v, 16).ok()?,
                 "warm" => c.warm = v.parse().ok()?,
+                "muts" => {
+                    c.muts = Some(if v == "-" {
+                        vec![]
+                    } else {
+                        v.split(',')
+                            .filter_map(|n| crate::mutsrc::MUT_NAMES.iter().position(|m| *m == n))
+                            .collect()
+                    })
+                }
                 "mode" => {
                     if let Some(s) = v.strip_prefix("rand:") {
                         c.mode = Mode::Rand(s.parse().ok()?);
@@ -162,6 +183,9 @@ impl Case {
     }
 
     pub fn mutators(&self) -> Vec<Box<dyn Mutator>> {
+        if let Some(v) = &self.muts {
+            return v.iter().map(|i| MUTS[*i].create(self.mu)).collect();
+        }
         MUTS.iter()
             .enumerate()
             .filter(|(i, _)| self.mask >> i & 1 == 1)
@@ -342,6 +366,7 @@ pub fn sample_case(rng: &mut Rng, id: u64, profile: &str, unsafe_sel: &str) -> C
         // mutator objects built with another unsafe_mode than the generator's flag (public API);
         // never an unsafe-mode TypeConfusion on a "safe" generator: that *is* an unsafe mutation
         mu: if rng.below(8) == 0 && (mask & 0x40) == 0 { !unsafe_m } else { unsafe_m },
+        muts: None,
     }
 }
 
@@ -569,6 +594,7 @@ fn cmd_gen(args: &[String]) {
                     mode: Mode::Arb(inp.clone()),
                     warm: 0,
                     mu: false,
+                    muts: None,
                 };
                 println!("{}", gen_line(&c));
                 id += 1;
@@ -641,6 +667,7 @@ fn cmd_seeds(args: &[String]) {
                 mode: Mode::Rand(seed),
                 warm: 0,
                 mu: false,
+                muts: None,
             };
             match c.run() {
                 Ok(out) => println!("oracle {} result=ok:{}", c.line(), hex(&out)),
